@@ -41,3 +41,94 @@ package plugin
 //@ ensures[C17.exec-error] jsonEncErr(req) == nil && cmdErr(pluginPath, reqCommand(req), jsonEnc(req)) != nil && cmdStderr(pluginPath, reqCommand(req), jsonEnc(req)) == "" ==> typeis(result, *PluginExecutableFileError)
 //@ ensures[C17.structured-error] jsonEncErr(req) == nil && cmdErr(pluginPath, reqCommand(req), jsonEnc(req)) != nil && cmdStderr(pluginPath, reqCommand(req), jsonEnc(req)) != "" ==> ite(decReqErrErr(cmdStderr(pluginPath, reqCommand(req), jsonEnc(req))) == nil, typeis(result, proto.RequestError), typeis(result, *PluginMalformedError))
 //@ ensures[C17.malformed-reply] jsonEncErr(req) == nil && cmdErr(pluginPath, reqCommand(req), jsonEnc(req)) == nil && jsonDecErr(cmdStdout(pluginPath, reqCommand(req), jsonEnc(req)), resp) != nil ==> typeis(result, *PluginMalformedError)
+
+// ---- C16: a plugin name never reaches outside <plugin root>/<name> ----
+
+//@ opaque func plainPluginName(name string) bool = name != "" && name != "." && name != ".." && !in_re(name, "[/\\\\\\x00]")
+
+//@ func validatePluginName
+//@ props C16 C20
+//@ ensures[C16.name-check] (result == nil) == plainPluginName(name)
+//@ ensures result != nil ==> !errIs(result, os.ErrNotExist)
+
+//@ func binName
+//@ props C16
+//@ ensures result == "notation-" + name
+
+//@ func (*CLIManager).Get
+//@ props C16 C20
+//@ requires m != nil && m.pluginFS != nil
+//@ at call (SysFS).SysPath: assert[C16.lookup-inside] plainPluginName(name) && len(arg0) == 1 && arg0[0] == pjoin(name, "notation-" + name)
+//@ at call NewCLIPlugin: assert[C16.lookup-inside] plainPluginName(name) && arg1 == name && arg2 == sysPath(m.pluginFS, pjoin(name, "notation-" + name))
+//@ ensures[C16.reject] !plainPluginName(name) ==> result1 != nil
+//@ ensures result1 == nil ==> result != nil
+
+//@ func (*CLIManager).Uninstall
+//@ props C16 C20
+//@ requires m != nil && m.pluginFS != nil
+//@ os-calls-only[C16.uninstall-effects] os.Stat os.RemoveAll
+//@ at call (SysFS).SysPath: assert[C16.uninstall-inside] plainPluginName(name) && len(arg0) == 1 && arg0[0] == name
+//@ at call os.Stat: assert[C16.uninstall-inside] plainPluginName(name) && arg0 == sysPath(m.pluginFS, name)
+//@ at call os.RemoveAll: assert[C16.uninstall-inside] plainPluginName(name) && arg0 == sysPath(m.pluginFS, name)
+//@ ensures[C16.reject] !plainPluginName(name) ==> result != nil && !errIs(result, os.ErrNotExist)
+//@ ensures[C20.clean-before-install] result == nil || errIs(result, os.ErrNotExist) ==> gone(sysPath(m.pluginFS, name))
+
+//@ pure func realSubdirName(n string) bool = exists(d, fs.DirEntry, deName(d) == n && modeIsDir(deType(d)) && bitand(deType(d), fs.ModeSymlink) == 0)
+
+//@ func (*CLIManager).List
+//@ props C16
+//@ requires m != nil
+//@ callback 1 invariant forall(i, 0, len(plugins), realSubdirName(plugins[i]))
+//@ ensures[C16.list-filter] result1 == nil ==> forall(i, 0, len(result), realSubdirName(result[i]))
+//@ ensures result1 != nil ==> result == nil
+
+//@ func (*CLIManager).List$1
+//@ props C16
+//@ requires err != nil || d != nil
+
+// ---- C20: installation follows the version rules and decides before it mutates ----
+
+//@ func parsePluginName
+//@ props C20 C16
+//@ ensures[C20.name-from-file] result1 == nil ==> result != "" && fileName == "notation-" + result
+//@ ensures result1 != nil ==> result == ""
+
+//@ func isExecutableFile
+//@ props C20
+//@ ensures result1 != nil ==> !result
+
+//@ func parsePluginFromDir
+//@ props C20
+//@ callback 1 invariant foundPluginExecutableFile ==> fileBase(pluginExecutableFile) == "notation-" + pluginName && pluginName != ""
+//@ callback 1 invariant len(filesWithValidNameFormat) == 1 ==> fileBase(filesWithValidNameFormat[0]) == "notation-" + candidatePluginName && candidatePluginName != ""
+//@ ensures[C20.name-from-file] result2 == nil ==> fileBase(result) == "notation-" + result1 && result1 != ""
+//@ ensures result2 != nil ==> result == "" && result1 == ""
+
+//@ func parsePluginFromDir$1
+//@ props C20
+//@ requires err != nil || (d != nil && deName(d) == fileBase(p))
+//@ ensures[C20.skip-subdirs] err == nil && deIsDir(d) && p != path ==> result == fs.SkipDir
+
+//@ global invariant ErrNotRegularFile != nil && ErrNotCompliant != nil
+
+//@ func NewCLIPlugin
+//@ props C20 C16
+//@ ensures result1 == nil ==> result != nil && fresh(result) && result.name == name && result.path == path
+//@ ensures result1 != nil ==> result == nil
+
+//@ pure func mayReplace(overwrite bool, existing *plugin.GetMetadataResponse, newer *plugin.GetMetadataResponse) bool = overwrite || existing == nil || semverCmp("v" + newer.Version, "v" + existing.Version) > 0
+
+//@ func (*CLIManager).Install
+//@ props C20 C16
+//@ requires m != nil && m.pluginFS != nil
+//@ os-calls-only[C20.decision-before-mutation]
+//@ at call (*CLIManager).Uninstall: assert[C20.decision-before-mutation] arg1 == pluginName && newPluginMetadata != nil && mayReplace(installOpts.Overwrite, existingPluginMetadata, newPluginMetadata)
+//@ at call (*CLIManager).Uninstall: assert[C20.name-from-file] fileBase(pluginExecutableFile) == "notation-" + pluginName
+//@ at call (SysFS).SysPath: assert[C16.install-inside] len(arg0) == 1 && arg0[0] == pluginName
+//@ at call file.CopyToDir: assert[C20.decision-before-mutation,C16.install-inside] plainPluginName(pluginName) && arg0 == pluginExecutableFile && arg1 == sysPath(m.pluginFS, pluginName) && mayReplace(installOpts.Overwrite, existingPluginMetadata, newPluginMetadata)
+//@ at call file.CopyDirToDir: assert[C20.decision-before-mutation,C16.install-inside] plainPluginName(pluginName) && arg0 == installOpts.PluginPath && arg1 == sysPath(m.pluginFS, pluginName) && mayReplace(installOpts.Overwrite, existingPluginMetadata, newPluginMetadata)
+//@ at call file.CopyToDir: assert[C20.clean-before-install] gone(sysPath(m.pluginFS, pluginName))
+//@ at call file.CopyDirToDir: assert[C20.clean-before-install] gone(sysPath(m.pluginFS, pluginName))
+//@ at call NewCLIPlugin: assert[C20.name-from-file] arg1 == pluginName && arg2 == pluginExecutableFile
+//@ ensures-local[C20.version-rule] result2 == nil ==> newPluginMetadata != nil && result1 == newPluginMetadata && result == existingPluginMetadata && mayReplace(installOpts.Overwrite, existingPluginMetadata, newPluginMetadata)
+//@ ensures result2 != nil ==> result == nil && result1 == nil
